@@ -13,10 +13,14 @@
                  writes go through the primitives #%box / #%unbox / #%set-box! on a heap, set! on a global is
                  SET — the evaluator CoreS.beval (box store + mutable globals threaded) is simulated by the
                  VM with a heap of lib/BytecodeS.v: C01_simulation_set, C01_program_simulation_set)   PROVED
-                 NOT proved: (i) the agreement of the reference store semantics CoreS.seval with
-                 beval o assign_convert (the boxing pass itself; tied by the differential check only);
-                 (ii) whole-program corollary for the SETLOCAL variant (only the general statement
-                 C01_simulation_setlocal is proved).
+                 The boxing pass itself is proved too: C01_assign_convert_correct (CoreS.seval, every variable a
+                 store location, agrees with beval o assign_convert through a world that maps the locations of
+                 assigned locals to box addresses and the locations of never-assigned locals to their immutable
+                 value), C01_assign_convert_program, and the composition C01_end_to_end_set
+                 (reference semantics = compiled code on the heap VM, for every clean unit of the fragment).
+                 NOT proved: (i) the same for assign_convertL / leval (SETLOCAL variant);
+                 (ii) hence no end-to-end statement for the SETLOCAL variant (its compile/VM simulation is proved
+                 for expressions and for whole programs: C01_simulation_setlocal, C01_program_simulation_setlocal).
            setlocal (refinement of set: an assigned local that no lambda of its scope captures stays in its
                  stack slot, [LSetL] = SETLOCAL overwrites the slot and yields the old value; the source
                  evaluator CoreL.leval threads the environment; premise [L.wf]: LSetL targets a slot of the
@@ -28,7 +32,7 @@
 From Coq Require Import String.
 From Coq Require Import ZArith List Bool Lia Arith.
 From SV Require Import lib.Core lib.CoreS lib.Bytecode lib.BytecodeS c01.Proofs_C01.
-From SV Require c01.Proofs_C01_set c01.Proofs_C01_setl.
+From SV Require c01.Proofs_C01_set c01.Proofs_C01_setl c01.Proofs_C01_conv.
 From SV Require Import lib.CoreL lib.BytecodeL.
 Import ListNotations.
 Open Scope list_scope.
@@ -255,6 +259,23 @@ Theorem C01_simulation_setlocal :
     end.
 Proof. intros limit tco n. exact (Proofs_C01_setl.sim_all limit tco n). Qed.
 
+(* whole programs of the SETLOCAL variant ([L.wf_program]: every definition and the main expression are
+   well formed w.r.t. the empty compile-time environment) *)
+Theorem C01_program_simulation_setlocal :
+  forall limit tco n ds main res,
+  lrun_program n ds main = Some res -> n <= limit -> L.wf_program ds main = true ->
+  match res with
+  | LVal v _ _ => exists k mv s', Proofs_C01_setl.vrel tco v mv /\ L.vm_program limit tco false k ds main = S.RDone mv s'
+  | LErr ek => exists k, L.vm_program limit tco false k ds main = S.RErr ek
+  end.
+Proof. exact Proofs_C01_setl.s_sim_program. Qed.
+
+Theorem C01_program_render_setlocal :
+  forall limit tco n ds main res,
+  lrun_program n ds main = Some res -> n <= limit -> L.wf_program ds main = true ->
+  exists k, S.render_run (L.vm_program limit tco false k ds main) = render_lresult (Some res).
+Proof. exact Proofs_C01_setl.s_program_render. Qed.
+
 Open Scope string_scope.
 Example C01_example_setlocal :
   let I z := SConst (KInt z) in let V := SVar in let A f a := SApp (SVar f) a in
@@ -269,6 +290,58 @@ Example C01_example_setlocal :
                    | MKCLOSURE _ _ _ body :: _ => body | _ => [] end).
 Proof. vm_compute. repeat split. auto 20. Qed.
 Open Scope list_scope.
+
+(* ------------------------------------------------------------------ the boxing pass
+   [Proofs_C01_conv.clean e]: no identifier of e is one of the reserved names #%box / #%unbox / #%set-box!
+   and the binders of one lambda / let are pairwise distinct.  World W: for every source location either
+   [LBox a] (location of an assigned local, corresponds to box a) or [LImm v] (never-assigned local,
+   corresponds to the immutable converted value v); [E] relates the environments through W, [inv] says every
+   local assigned in e is boxed, [StoreRel] / [GlobRel] relate stores and globals, [V] values, [ext] world
+   extension.  The converted program may need more fuel (m) than the reference run (n). *)
+Theorem C01_assign_convert_correct :
+  forall n rs e st res, seval n rs e st = Some res ->
+  forall W bx rb stb,
+    Proofs_C01_conv.E W bx rs rb -> Proofs_C01_conv.inv bx rs e -> Proofs_C01_conv.clean e = true ->
+    Proofs_C01_conv.StoreRel W (s_store st) (b_store stb) -> Proofs_C01_conv.GlobRel W (s_glob st) (b_glob stb) ->
+    exists m,
+      match res with
+      | SVal v st' => exists W' bv stb', Proofs_C01_conv.ext W W' /\
+          beval m rb (aconv bx e) stb = Some (BVal bv stb') /\ Proofs_C01_conv.V W' v bv /\
+          Proofs_C01_conv.StoreRel W' (s_store st') (b_store stb') /\
+          Proofs_C01_conv.GlobRel W' (s_glob st') (b_glob stb')
+      | CoreS.SErr k => beval m rb (aconv bx e) stb = Some (BErr k)
+      end.
+Proof. intros n. exact (Proofs_C01_conv.conv_all n). Qed.
+
+Theorem C01_assign_convert_program : forall n ds main sres,
+  srun_program n ds main = Some sres -> Proofs_C01_conv.clean_prog ds main = true ->
+  exists m bres, brun_program m (S.conv_defs ds) (assign_convert main) = Some bres /\
+                 render_bresult (Some bres) = render_sresult (Some sres) /\
+                 match sres, bres with
+                 | SVal v _, BVal bv _ => exists W, Proofs_C01_conv.V W v bv
+                 | CoreS.SErr k, BErr k' => k = k'
+                 | _, _ => False
+                 end.
+Proof. exact Proofs_C01_conv.assign_convert_program. Qed.
+
+(* END TO END for the assignment layer: for every evaluation unit of the fragment (clean), whatever the
+   reference store semantics computes (value or error) is what the compiled code computes on the heap VM,
+   in both compilation modes, for every frame limit above the fuel m of the converted run. *)
+Theorem C01_end_to_end_set : forall forms ds ms n sres,
+  ssplit_unit forms = Some (ds, ms) -> Proofs_C01_conv.clean_prog ds (sseq_of ms) = true ->
+  srun_program n ds (sseq_of ms) = Some sres ->
+  S.unit_render_ref n forms = render_sresult (Some sres) /\
+  exists m, forall limit tco, m <= limit ->
+    exists k, S.unit_render_vm limit tco false k forms = render_sresult (Some sres).
+Proof.
+  intros forms ds ms n sres Hsp Hcl Hrun. split.
+  - unfold S.unit_render_ref. rewrite Hsp, Hrun. auto.
+  - destruct (Proofs_C01_conv.assign_convert_program n ds (sseq_of ms) sres Hrun Hcl) as (m & bres & Hb & Hr & _).
+    exists m. intros limit tco Hl.
+    destruct (Proofs_C01_set.s_program_render limit tco m _ _ bres Hb Hl) as [k Hk].
+    exists k. unfold S.unit_render_vm. rewrite Hsp.
+    change (S.conv_defs ds) with (Proofs_C01_conv.cdefs ds). rewrite Hk. exact Hr.
+Qed.
 
 (* non-vacuity of the assignment layer: a counter closure over an assigned captured local *)
 Example C01_example_set :
